@@ -124,6 +124,16 @@ def run(F, R, tier):
                  "the comment loop of %s can stop early (`%s`): pragmas / JSDoc imports in comments visited later are not reported" % (b["path"].split("::")[-1], expr_text(early[0])[:20] if early else ""), where(early[0]) if early else "")
     R.floor("C08-V comment loops", n_cl, 2)
 
+    # JSDoc imports are read from JSDoc comments only: block comments that start with `*`
+    aj = F.body("ast::analyze_jsdoc_imports")
+    scan = [n for n in aj["_nodes"] if n.get("k") == "MethodCall" and n["name"] == "match_indices"]
+    if R.ob("C08-V", "JSDoc scan found", len(scan) >= 1, "analyze_jsdoc_imports no longer scans comment text for `{`", aj["file"]):
+        g = guards_at(F, scan[0])
+        is_block = any(x.kind == "cond" and x.pol and x.node.get("k") == "Binary" and x.node["op"] == "==" and any((ctor_of(peel(x.node[s_])) or "").endswith("CommentKind::Block") for s_ in ("l", "r")) for x in g)
+        star = any(x.kind == "cond" and x.pol and x.node.get("k") == "MethodCall" and x.node["name"] == "starts_with" and any(y.get("k") == "Lit" and y.get("v") == "*" for y in walk(x.node)) for x in g)
+        R.ob("C08-V", "only `/** .. */` comments are scanned for JSDoc imports", is_block and star,
+             "the JSDoc scan is reached for comments that are not both block comments and `*`-prefixed (block=%s, star=%s): ordinary comments containing `{import(..)}` would add dependencies the module does not declare" % (is_block, star), where(scan[0]))
+
     # `with` takes precedence over the legacy `assert` key of a dynamic import's options
     pa = [b for b in F.bodies if b["file"] == "src/ast/dep.rs" and not b.get("derived") and any(n.get("k") == "Lit" and n.get("v") == "assert" for n in b["_nodes"]) and any(n.get("k") == "Lit" and n.get("v") == "with" for n in b["_nodes"]) and any(n["k"] == "For" for n in b["_nodes"])]
     if R.ob("C08-A", "options-object attribute parser found", len(pa) == 1, "no single function in src/ast/dep.rs scans for both `with` and `assert` keys", "src/ast/dep.rs"):
